@@ -18,6 +18,21 @@ class FailingSink(object):
         return len(d)
 
 
+def bounded(fn, seconds=8.0):
+    """runs fn() on a helper thread; ('ok', result) | ('raised', exception) | ('hang',) when it has not returned in time"""
+    box = []
+
+    def body():
+        try:
+            box.append(('ok', fn()))
+        except BaseException as e:
+            box.append(('raised', e))
+    t = threading.Thread(target=body, daemon=True)
+    t.start()
+    t.join(seconds)
+    return box[0] if box else ('hang',)
+
+
 def after_failure(chk, suite, enc_cases):
     """enc_cases: (label, send(value, sink), value, expected bytes).  Each encoder is first driven into a failing sink
     (the error is the sink's, and is ignored), then asked again on a good sink: it must give the expected bytes."""
@@ -35,11 +50,13 @@ def after_failure(chk, suite, enc_cases):
                 pass
             s = Sink()
             chk.count(suite, ['after-failure', label, repr(value)[:80], ok], True)
-            try:
-                send(value, s)
-                got = s.out
-            except Exception as e:
-                got = 'raised %s' % type(e).__name__
+            r = bounded(lambda: send(value, s))
+            if r[0] == 'hang':
+                import common
+                chk.violation(suite, 'after-failure:hang:%s' % label, {'case': {'type': label, 'value': repr(value)[:300], 'sink_failed_after_sends': ok}, 'observed': 'no return within 8 s'},
+                              '%s %s: after an encoding whose socket failed, the next encoding does not terminate (no return within 8 s)' % (label, repr(value)[:40]))
+                raise common.StopCheck()
+            got = s.out if r[0] == 'ok' else 'raised %s' % type(r[1]).__name__
             if got != exp:
                 chk.violation(suite, 'after-failure:%s:%r' % (label, value if len(repr(value)) < 40 else hash(repr(value))),
                               {'case': {'type': label, 'value': repr(value)[:300], 'sink_failed_after_sends': ok}, 'expected': exp.hex()[:300],
@@ -67,11 +84,13 @@ def after_bad_argument(chk, suite, enc_cases, bad_of):
                 pass
             s = Sink()
             chk.count(suite, ['after-bad-argument', label, repr(value)[:60], repr(bad)[:60]], True)
-            try:
-                send(value, s)
-                got = s.out
-            except Exception as e:
-                got = 'raised %s' % type(e).__name__
+            r = bounded(lambda: send(value, s))
+            if r[0] == 'hang':
+                import common
+                chk.violation(suite, 'after-bad-argument:hang:%s' % label, {'case': {'type': label, 'value': repr(value)[:200], 'earlier_call_with': '%s %r' % (type(bad).__name__, bad)}, 'observed': 'no return within 8 s'},
+                              '%s %s: after a call with %s(%r), the next encoding does not terminate (no return within 8 s)' % (label, repr(value)[:40], type(bad).__name__, bad))
+                raise common.StopCheck()
+            got = s.out if r[0] == 'ok' else 'raised %s' % type(r[1]).__name__
             if got != exp:
                 chk.violation(suite, 'after-bad-argument:%s:%r' % (label, value if len(repr(value)) < 40 else hash(repr(value))),
                               {'case': {'type': label, 'value': repr(value)[:200], 'earlier_call_with': '%s %r' % (type(bad).__name__, bad)}, 'expected': exp.hex()[:200],
@@ -126,10 +145,13 @@ def after_read_failure(chk, suite, dec_cases):
                 del src
                 good = GoodSource(data + b'\x5a', None)
                 chk.count(suite, ['after-read-failure', label, data.hex()[:60], k, type(exc).__name__], True)
-                try:
-                    got = (read(good), good.pos)
-                except Exception as e:
-                    got = 'raised %s' % type(e).__name__
+                r = bounded(lambda: read(good))
+                if r[0] == 'hang':
+                    import common
+                    chk.violation(suite, 'after-read-failure:hang:%s' % label, {'case': {'type': label, 'bytes': data.hex()[:300], 'first_stream_failed_after': k, 'failure': type(exc).__name__}, 'observed': 'no return within 8 s'},
+                                  '%s: after a read on another stream that failed with %s after %d bytes, decoding %s on a new stream does not terminate' % (label, type(exc).__name__, k, data.hex()[:30]))
+                    raise common.StopCheck()
+                got = (r[1], good.pos) if r[0] == 'ok' else 'raised %s' % type(r[1]).__name__
                 if got != exp:
                     chk.violation(suite, 'after-read-failure:%s:%s' % (label, data.hex()[:40]),
                                   {'case': {'type': label, 'bytes': data.hex()[:300], 'first_stream_failed_after': k, 'failure': type(exc).__name__}, 'expected': repr(exp)[:200], 'observed': repr(got)[:200]},
